@@ -98,7 +98,9 @@ Match(r, e, prevErr) ==
     /\ ("gate" \in Focus) => ((e.out.k = "err" /\ e.out.cls = "Unsupported")
                                <=> (r.out.k = "err" /\ r.out.cls = {"Unsupported"}))
     \* C06: the reaction writes, in order
-    /\ ("react" \in Focus) => SelectSeq(ok, LAMBDA m : IsReactW(r, m)) = r.react
+    \* (the reaction is specified relative to what happened to the line: the allowed result must
+    \* also agree with the observed kind of outcome - message or error)
+    /\ ("react" \in Focus) => (SelectSeq(ok, LAMBDA m : IsReactW(r, m)) = r.react /\ e.out.k = r.out.k)
     \* C07 / C08: set commands written at sends and wakes
     /\ ("sets" \in Focus) =>
           /\ "flush" \notin r.viol
